@@ -885,7 +885,7 @@ def signature(c, real):
 class C03(PropertyCheck):
     pid = "C03"
     claimed = True
-    props_modules = ["KDVerif.Props.C03"]
+    props_modules = ["KDVerif.Props.C03", "KDVerif.Lemmas.C03FloorBridge"]
     extra_build = ["KDVerif.Driver.Selection"]
     driver_main = "mains/Selection.lean"
     anchored = [
